@@ -63,6 +63,7 @@ type jobs struct {
 type jstep struct {
 	Last jlast           `json:"last"`
 	St   map[string]jobs `json:"st"`
+	Rank []string        `json:"rank"` // all ids in ascending lexical order after the step
 }
 
 type behaviour struct {
@@ -71,14 +72,16 @@ type behaviour struct {
 	Absent    []string `json:"absent,omitempty"`
 	Steps     []jstep  `json:"steps"`
 	Quiescent bool     `json:"quiescent"`
+	Mine      bool     `json:"mine,omitempty"` // realise the id order of the behaviour by mining real ids
 	Name      string   `json:"name,omitempty"`
 }
 
 type replayObj struct {
-	Kind      string       `json:"kind"` // "behaviour" | "sim" | "crafted"
-	Behaviour *behaviour   `json:"behaviour,omitempty"`
-	Sim       *simParams   `json:"sim,omitempty"`
-	Crafted   *craftedCase `json:"crafted,omitempty"`
+	Kind       string          `json:"kind"` // "behaviour" | "sim" | "crafted"
+	Behaviour  *behaviour      `json:"behaviour,omitempty"`
+	Sim        *simParams      `json:"sim,omitempty"`
+	Crafted    *craftedCase    `json:"crafted,omitempty"`
+	Concurrent *concurrentCase `json:"concurrent,omitempty"`
 }
 
 // violationCount counts every reported violation (the report keeps one per key)
@@ -110,6 +113,10 @@ func checkAll(w *world, rep *vfutil.Report, what string, replay func() any) ([]*
 	ok := true
 	if len(w.sendViolations) > 0 {
 		violate(rep, "advertise-not-held", w.sendViolations[0]+" ["+what+"]", replay())
+		ok = false
+	}
+	if len(w.pathViolations) > 0 {
+		violate(rep, "advertise-path-not-current", w.pathViolations[0]+" ["+what+"]", replay())
 		ok = false
 	}
 	if len(w.panics) > 0 {
@@ -182,6 +189,75 @@ func finish(w *world, rng *rand.Rand, rep *vfutil.Report, lossless bool, replay 
 		os, _ := checkAll(w, rep, "finish", replay)
 		if k, d := checkConverged(os, repNames(w)); k != "" {
 			violate(rep, k+"-lossless", "no message was lost, the network has drained, no anti-entropy needed: "+d, replay())
+			return false
+		}
+	}
+	// pairwise anti-entropy in isolation: nothing is in flight; for a pair that differs run
+	// SyncWithPeer and deliver only the traffic between the two (everything addressed to or coming
+	// from third replicas is withheld). When that traffic has died out the two must hold the same
+	// heads and changes - a third replica must not be needed to repair a pair ("every pair has
+	// completed an anti-entropy exchange").
+	pairDrain := func(a, b *replica) bool {
+		for {
+			var cand []*msg
+			for _, m := range w.net {
+				if (m.From == a.name && m.To == b.name) || (m.From == b.name && m.To == a.name) {
+					cand = append(cand, m)
+				}
+			}
+			if len(cand) == 0 {
+				return true
+			}
+			steps++
+			if steps > limit || len(w.net) > 8000 {
+				violate(rep, "sync-does-not-terminate", fmt.Sprintf("the exchange between %s and %s did not die out within %d deliveries (%d in flight)", a.name, b.name, steps-1, len(w.net)), replay())
+				return false
+			}
+			m := cand[rng.Intn(len(cand))]
+			w.removeFromNet(m)
+			sr := w.deliver(m)
+			if log != nil {
+				log("deliver", m, sr, nil, nil)
+			}
+			if _, ok := checkAll(w, rep, "finish: pairwise "+m.key(), replay); !ok {
+				return false
+			}
+		}
+	}
+	for round := 0; round < 2*len(w.reps)*len(w.reps); round++ {
+		os, ok := checkAll(w, rep, "finish", replay)
+		if !ok {
+			return false
+		}
+		var pairs [][2]int
+		for i := range w.reps {
+			for j := range w.reps {
+				if i != j && os[i].Present && os[j].Present && !eqSet(os[i].Heads, os[j].Heads) {
+					pairs = append(pairs, [2]int{i, j})
+				}
+			}
+		}
+		if len(pairs) == 0 {
+			break
+		}
+		pr := pairs[rng.Intn(len(pairs))]
+		a, b := w.reps[pr[0]], w.reps[pr[1]]
+		sr := w.syncWithPeer(a, b)
+		if log != nil {
+			log("SyncWithPeer", nil, sr, a, b)
+		}
+		if !pairDrain(a, b) {
+			return false
+		}
+		os, ok = checkAll(w, rep, "finish: pairwise", replay)
+		if !ok {
+			return false
+		}
+		if k, d := checkConverged([]*obs{os[pr[0]], os[pr[1]]}, []string{a.name, b.name}); k != "" {
+			violate(rep, "pair-"+k, fmt.Sprintf("SyncWithPeer(%s, %s) with reliable delivery between the two (nothing else delivered) has died out: ", a.name, b.name)+d, replay())
+			return false
+		}
+		if !drain() {
 			return false
 		}
 	}
@@ -260,7 +336,21 @@ func runBehaviour(pool *slotPool, b *behaviour, rep *vfutil.Report, rng *rand.Ra
 		what := fmt.Sprintf("step %d %s", i, l.Act)
 		switch l.Act {
 		case "AddContent":
-			sr = w.addContent(w.byName[l.R], l.Snap)
+			lo, hi := "", ""
+			if b.Mine {
+				for k, id := range st.Rank {
+					if id == l.Id {
+						if k > 0 {
+							lo = w.real[st.Rank[k-1]]
+						}
+						if k+1 < len(st.Rank) {
+							hi = w.real[st.Rank[k+1]]
+						}
+						sig = append(sig, fmt.Sprintf("#%d", k))
+					}
+				}
+			}
+			sr = w.addContentRanked(w.byName[l.R], l.Snap, lo, hi, b.Mine)
 			sig = append(sig, "A"+l.R[1:]+map[bool]string{true: "s", false: ""}[l.Snap])
 			if sr.Err != nil {
 				drift(i, "AddContent failed: %v", sr.Err)
@@ -358,6 +448,9 @@ func runBehaviour(pool *slotPool, b *behaviour, rep *vfutil.Report, rng *rand.Ra
 	}
 	// whatever happened, finish the run with the harness' own reliable schedule and check convergence
 	finish(w, rng, rep, lossless, replay, nil)
+	if w.rankMisses > 0 {
+		rep.AddExtra("id_rank_not_realised", w.rankMisses)
+	}
 	if len(b.Steps) > 8 {
 		rep.Sample(map[string]any{"behaviour": b.Name, "actions": strings.Join(sig, " "), "drifted": drifted})
 	}
@@ -392,6 +485,8 @@ func TestReplay(t *testing.T) {
 			runSim(pool, *ro.Sim, rep, nil)
 		case "crafted":
 			runCrafted(pool, *ro.Crafted, rep)
+		case "concurrent":
+			runConcurrent(pool, *ro.Concurrent, rep)
 		default:
 			t.Fatalf("unknown replay kind %q", ro.Kind)
 		}
